@@ -67,22 +67,36 @@ var c11Alphabet = []RegOp{
 	{Kind: "regconn", Target: "b3", Fail: "cancel"},
 }
 
-type probeKind struct{ method, proto, codec, route string }
+type probeKind struct{ method, proto, codec, route, selector string }
 
 var probeKinds = []probeKind{
-	{"unary", "grpc", "proto", ""}, {"unary", "http", "json", ""}, {"unary", "http", "proto", ""},
-	{"upload", "grpc", "proto", ""}, {"upload", "http", "body", ""}, {"upload", "http", "json", "implicit"},
-	{"getmsg", "grpc", "proto", ""}, {"getmsg", "http", "json", ""}, {"getmsg", "http", "json", "implicit"},
+	{"unary", "grpc", "proto", "", ""}, {"unary", "http", "json", "", ""}, {"unary", "http", "proto", "", ""},
+	{"upload", "grpc", "proto", "", ""}, {"upload", "http", "body", "", ""}, {"upload", "http", "json", "implicit", ""},
+	{"getmsg", "grpc", "proto", "", ""}, {"getmsg", "http", "json", "", ""}, {"getmsg", "http", "json", "implicit", ""},
 	// service-config routes of TestService.UnaryCall that share their literal
 	// prefix with annotated routes of Messaging (/v1/...) and Files
 	// (/files/...): they must survive whatever happens to those services
-	{"raw", "http", "json", "GET /v1/ts/unary"}, {"raw", "http", "json", "POST /files/ts/unary"},
+	{"raw", "http", "json", "GET /v1/ts/unary", tsvc + ".UnaryCall"}, {"raw", "http", "json", "POST /files/ts/unary", tsvc + ".UnaryCall"},
+	// four sibling variable nodes under one trie node, owned by three services
+	// (two of them by one method): removing one owner must take exactly its
+	// nodes away
+	{"raw", "http", "json", "GET /zz/a/1", svcMessaging + ".GetMessageOne"}, {"raw", "http", "json", "GET /zz/b/1", svcMessaging + ".GetMessageOne"},
+	{"raw", "http", "json", "GET /zz/c/1", tsvc + ".UnaryCall"}, {"raw", "http", "json", "GET /zz/d/1", svcFiles + ".UploadDownload"},
+	// routes of one service below the implicit /Service/Method node of another
+	{"raw", "http", "json", "GET /larking.testpb.Messaging/GetMessageOne/x/f1", svcFiles + ".UploadDownload"},
+	{"raw", "http", "json", "GET /grpc.testing.TestService/UnaryCall/y/n1", svcMessaging + ".GetMessageOne"},
 }
 
 // registryRules are the service-config rules every registrysim mux carries.
 var registryRules = []RuleSpec{{
 	Selector: tsvc + ".UnaryCall", Verb: "get", Template: "/v1/ts/unary",
-	Additional: []RuleSpec{{Verb: "post", Template: "/files/ts/unary", Body: "*"}},
+	Additional: []RuleSpec{{Verb: "post", Template: "/files/ts/unary", Body: "*"}, {Verb: "get", Template: "/zz/{response_status.message=c/*}"}},
+}, {
+	Selector: svcMessaging + ".GetMessageOne", Verb: "get", Template: "/zz/{name=a/*}",
+	Additional: []RuleSpec{{Verb: "get", Template: "/zz/{name=b/*}"}, {Verb: "get", Template: "/grpc.testing.TestService/UnaryCall/y/{name}"}},
+}, {
+	Selector: svcFiles + ".UploadDownload", Verb: "get", Template: "/zz/{filename=d/*}",
+	Additional: []RuleSpec{{Verb: "get", Template: "/larking.testpb.Messaging/GetMessageOne/x/{filename}"}},
 }}
 
 func mkProbe(r *core.Rand, id int, pk probeKind) ReqSpec {
@@ -96,7 +110,7 @@ func mkProbe(r *core.Rand, id int, pk probeKind) ReqSpec {
 	if pk.method == "raw" {
 		verb, path, _ := strings.Cut(pk.route, " ")
 		sp.Route, sp.Msgs = "", nil
-		sp.Raw = &RawProbe{Verb: verb, Path: path, Selector: tsvc + ".UnaryCall", HasBody: verb == "POST"}
+		sp.Raw = &RawProbe{Verb: verb, Path: path, Selector: pk.selector, HasBody: verb == "POST"}
 	}
 	return sp
 }
@@ -313,6 +327,9 @@ func oracleRegistrySequential(prop string, mr *muxRun, res *RunResult) *Violatio
 				}
 				if len(rs.servedBy) > 1 {
 					return violationf(prop, "served-twice", pctx, "history [%s]: one request reached %v", hist, rs.servedBy)
+				}
+				if rs.spec.Raw != nil && len(rs.servedMethods) > 0 && rs.servedMethods[0] != rs.method.Full() {
+					return violationf(prop, "routed-to-wrong-method", pctx, "history [%s]: %s %s reached %s, its route belongs to %s", hist, rs.spec.Raw.Verb, rs.spec.Raw.Path, rs.servedMethods[0], rs.method.Full())
 				}
 				if rs.spec.Raw == nil {
 					if v := oracleStream(prop, mr, rs, cnt); v != nil {
